@@ -303,7 +303,7 @@ func c10Check(c *Ctx, sc c10Scenario, bound int, count bool) (execs int, complet
 		ops += len(p)
 	}
 	// scheduling points inside the critical sections for the smaller shapes (all of the quick tier)
-	schedFine = c.Quick() || ops <= 3 || (len(sc.Progs) == 2 && ops <= 4 && sc.InitLen == 1 && !sc.FIFO)
+	schedFine = c.Quick() || (ops <= 3 && (len(sc.Progs) == 2 || sc.InitLen <= 2)) || (len(sc.Progs) == 2 && ops <= 4 && sc.InitLen == 1 && !sc.FIFO && sc.Cap == 0)
 	n, complete := exploreSchedules(sc.mk, sc.programs(), bound, true, visit, c.TimeUp)
 	schedFine = true
 	if count {
